@@ -278,7 +278,7 @@ def main(argv):
         except Exception as e:
             notes['summary_notes_error'] = str(e)[:200]
     wall = time.time() - t0
-    if not replay:
+    if not replay and not os.environ.get('VERIF_NO_EVIDENCE'):      # (set by bin/trymutant: runs on a changed tree leave no evidence)
         ev = core.write_evidence(pid, tier, seed, cov, wall, nviol,
                                  list(getattr(mod, 'ASSUMPTIONS', [])))
     sys.stderr.write('\n')
